@@ -152,6 +152,19 @@ def listedEnvVars : List String :=
   ["LLGO_DEBUG", "LLGO_DEBUG_SYMBOLS", "LLGO_FULL_RPATH", "LLGO_OPTIMIZE", "LLGO_STDIO_NOBUF", "LLGO_TRACE",
    "LLGO_WASI_THREADS", "LLGO_WASM_RUNTIME"]
 
+/-- build.go `isEnvOn` -/
+def isEnvOn (v : String) (dflt : Bool) : Bool :=
+  let l := v.toLower
+  if l = "" then dflt else l = "1" || l = "true" || l = "on"
+
+/-- how the compiler reads a listed variable (build.go `IsDbgEnabled … WasmRuntime`): the boolean switches through
+    `isEnvOn` with their defaults, `LLGO_WASM_RUNTIME` as a string -/
+def envMeaning (n v : String) : String :=
+  if n = "LLGO_WASM_RUNTIME" then (if v = "" then "wasmtime" else v)
+  else
+    let dflt := n = "LLGO_OPTIMIZE" || n = "LLGO_WASI_THREADS" || n = "LLGO_FULL_RPATH"
+    if isEnvOn v dflt then "on" else "off"
+
 /-- environment variables read by `internal/clang` at exec time (`mergeCompilerFlags`, `mergeLinkerFlags`) -/
 def compilerEnvVars : List String := ["CCFLAGS", "CFLAGS", "LDFLAGS"]
 
@@ -174,10 +187,19 @@ def envNames (cfg : Cfg) : List String :=
 
 /-! ## packages -/
 
+/-- cl/import.go `PkgKindOf` (`const LLGoPackage = …`).  build.go `buildAllPkgs`: a decl-only package is never compiled
+    and has no archive; every other kind is compiled and cached.  The kind plays NO role in the fingerprint:
+    `collectDependencyInputs` lists every import, whatever its kind — the constants and types of a decl-only package are
+    compiled into its importers. -/
+inductive PkgKind where
+  | normal | declOnly | linkIR | linkExtern | pyModule | noInit
+  deriving DecidableEq, Repr, Inhabited
+
 structure PkgData where
   id : String
   path : String
   name : String := ""
+  kind : PkgKind := .normal
   /-- `moduleVersion(dep.Module)`: non-empty for packages of a versioned (non-replaced) module -/
   modVersion : String := ""
   goFiles : List SrcFile := []
@@ -348,7 +370,7 @@ structure GlobRel where
   ldflags : List String
   linker : String
   extraFiles : List (String × Bytes)
-  /-- values of `listedEnvVars` -/
+  /-- what the compiler makes of the `listedEnvVars` (`envMeaning`) -/
   envVars : List String
   /-- values of `compilerEnvVars` -/
   compilerEnv : List String
@@ -380,6 +402,9 @@ def Rel.own? : Rel → Option OwnRel
 def Rel.glob? : Rel → Option GlobRel
   | .pkg g _ _ => some g
   | .versioned _ _ => none
+def Rel.compilerEnv? : Rel → Option (List String)
+  | .pkg g _ _ => some g.compilerEnv
+  | .versioned _ _ => none
 
 def relFiles (fs : List File) : List (String × Bytes) :=
   isort (fun a b => strLe a.1 b.1) (fs.map fun f => (f.path, f.effective))
@@ -389,7 +414,7 @@ def globRel (g : Global) : GlobRel :=
     abiMode := g.abiMode, opt := g.opt, goVersion := g.goVersion, llgoVersion := g.llgoVersion
     compilerHash := g.compilerHash, llvmVersion := g.llvmVersion, cc := g.cc, ccflagsRest := g.ccflagsRest
     cflags := g.cflags, ldflags := g.ldflags, linker := g.linker, extraFiles := relFiles (g.extraFiles.map File.noOverlay)
-    envVars := listedEnvVars.map (getenv g), compilerEnv := compilerEnvVars.map (getenv g) }
+    envVars := listedEnvVars.map (fun n => envMeaning n (getenv g n)), compilerEnv := compilerEnvVars.map (getenv g) }
 
 def ownRel (g : Global) (d : PkgData) : OwnRel :=
   { pkgPath := d.path, id := d.id
@@ -432,14 +457,17 @@ structure BuildOpts where
   cacheOn : Bool := true
   deriving DecidableEq, Repr, Inhabited
 
-/-- one package: fingerprint, lookup, otherwise compile and store (never for `main`) -/
+/-- build.go `buildAllPkgs`: `case cl.PkgDeclOnly: pkg.ExportFile = ""` — no fingerprint lookup, no archive -/
+def cachedKind (d : PkgData) : Bool := d.kind != .declOnly
+
+/-- one package: fingerprint, lookup, otherwise compile and store (never for `main`, never for decl-only packages) -/
 def buildPkg (o : BuildOpts) (g : Global) (c : CacheMap φ Obj) (t : PkgT) : CacheMap φ Obj × Obj :=
   let k := fp (key cfg hb fp g t)
-  match (if o.cacheOn && !o.force then lookup c k else none) with
+  match (if o.cacheOn && !o.force && cachedKind t.data then lookup c k else none) with
   | some obj => (c, obj)
   | none =>
     let obj := compileRel (relevant g t)
-    (if o.cacheOn && t.data.name != "main" then (k, obj) :: c else c, obj)
+    (if o.cacheOn && t.data.name != "main" && cachedKind t.data then (k, obj) :: c else c, obj)
 
 def buildProg (o : BuildOpts) (g : Global) : CacheMap φ Obj → List PkgT → CacheMap φ Obj × List Obj
   | c, [] => (c, [])
